@@ -3,7 +3,7 @@
 1. TLC, exhaustive on the design model of the run loop (RunModel.tla: Interpreter::Run as coded -- idle
    flag, CoreTiming::Skip with the minimum horizon, the additional tick -- next to plain cycles; abstract
    core with an idle or counting main loop and an interrupt handler; two timers in all modes): for every
-   start configuration (24576), every budget n <= 5 (6 thorough) and EVERY way of slicing n into calls the
+   start configuration (49152), every budget n <= 5 (6 thorough) and EVERY way of slicing n into calls the
    observations agree.  MC_RunAudio.cfg: the same with the audio port in every state (51840 start configurations:
    every queue up to capacity 3, every phase incl. overrun, periods 1..3, on/off) taking part in
    CoreTiming::Skip through Btdmp::GetMaxSkip / Skip; delivered frames and audio interrupts are observed.  The two pinned configurations must violate: the loop that skips over a latched
@@ -24,7 +24,7 @@ def run(ck):
     ck.build('sys_rec')
     ck.mc('RunModel', ck.pick('MC_Run.cfg', 'MC_Run_N6.cfg'), timeout=3400, coverage=False)
     ck.mc('RunModel', 'MC_RunAudio.cfg', timeout=3400, coverage=False)
-    for cfg in ('MC_Run_pinned_d1.cfg', 'MC_Run_pinned_d2.cfg'):
+    for cfg in ('MC_Run_pinned_d1.cfg', 'MC_Run_pinned_d2.cfg', 'MC_Run_mut_vec.cfg'):
         r = ck.mc('RunModel', cfg, must_hold=False, coverage=False, timeout=1200)
         if r.violated != 'SlicingInvariant':
             raise vlib.Infra('%s no longer shows the defect it pins (model drifted)' % cfg)
